@@ -96,7 +96,7 @@ def _satsolve_filein_fileout(F, cmd='minisat', verbose=0):
     result = None
     witness = None
 
-    output = output.decode("ascii")
+    output = output.decode("ascii", errors="replace")
     if verbose >= 2:
         print(output, file=sys.stderr)
 
@@ -201,7 +201,7 @@ def _satsolve_stdin_stdout(F, cmd='lingeling', verbose=0):
     result = None
 
     # result is given as ASCII encoded text
-    output = output.decode('ascii')
+    output = output.decode('ascii', errors='replace')
 
     if verbose >= 2:
         print(output, file=sys.stderr)
@@ -297,7 +297,7 @@ def _satsolve_filein_stdout(F, cmd='sat4j', verbose=0):
     result = None
 
     # result is given as ASCII encoded text
-    output = output.decode('ascii')
+    output = output.decode('ascii', errors='replace')
     if verbose >= 2:
         print(output, file=sys.stderr)
 
